@@ -25,6 +25,9 @@ Li(a, hi, lo) == It("li", "li", "", a, hi, lo, "", 0)
 Lil(a, f, t, n) == It("lil", "li", f, a, 0, 0, t, n)
 Imml(m, f, a, b, t, n) == It("imml", m, f, a, b, 0, t, n)
 Dw(f, t, n) == It("dw", "dw", f, 0, 0, 0, t, n)
+Const(t, n) == It("const", "", "", 0, 0, 0, t, n)
+Brk(m, a, b, t, n) == It("brk", m, "", a, b, 0, t, n)
+Jalk(a, t, n) == It("jalk", "jal", "", a, 0, 0, t, n)
 Align(n) == It("align", "", "", 0, 0, 0, "", n)
 Data(n) == It("data", "", "", 0, 0, 0, "", n)
 Gap(n) == It("gap", "", "", 0, 0, 0, "", n)
@@ -66,7 +69,7 @@ Values ==
 Aligns ==
   << Lab("L1"), I4, IC, Br("beq", 8, 0, "L1"), Jal(1, "L1"), Li(9, 0, 5), Pj("call", "L1"), Dw("bare", "L1", 0),
      Data(1), Data(2), Data(3),
-     Align(1), Align(2), Align(3), Align(4), Align(5), Align(7), Align(8), Align(9), Align(16) >> \o GapItems
+     Align(1), Align(2), Align(3), Align(4), Align(5), Align(8), Align(16), Align(257), Align(512) >> \o GapItems
 
 Literals ==
   << Lab("L1"), I4, IC, Ins("addi", 8, 2, 4), Ins("addi", 2, 2, 16), Ins("addi", 9, 0, -32), Ins("addi", 9, 8, 0),
@@ -77,7 +80,17 @@ Literals ==
      Pins("nop", 0, 0), Pins("mv", 9, 8), Pins("ret", 0, 0), Pins("jr", 5, 0), Pins("jalr", 5, 0), Pins("not", 8, 8),
      Pins("neg", 8, 8), Pins("seqz", 9, 8), Br("bne", 9, 0, "L1"), Jal(1, "L1"), Pj("j", "L1"), Align(4), Data(1) >>
 
-Alpha == CASE Class = "control" -> Control [] Class = "far" -> Far [] Class = "values" -> Values
+\* branches / jumps to an ABSOLUTE address held in a constant (the distance grows when earlier items shrink)
+Abs ==
+  << Const("K1", 260), Const("K2", 2052), I4, IC, Li(9, 0, 5), Li(9, 4660, 22136), Pj("call", "L1"), Lab("L1"),
+     Brk("beq", 8, 0, "K1", 260), Brk("bne", 9, 0, "K1", 260), Brk("blt", 5, 6, "K1", 260), Jalk(0, "K2", 2052), Jalk(1, "K2", 2052),
+     Align(4), Data(2) >>
+\* odd alignments and odd-sized data between a branch and its label
+OddAlign ==
+  << Lab("L1"), IC, I4, Br("beq", 8, 0, "L1"), Br("blt", 5, 6, "L1"), Jal(1, "L1"), Jal(5, "L1"), Pj("j", "L1"),
+     Data(1), Data(2), Data(3), Align(2), Align(3), Align(5), Align(4) >>
+
+Alpha == CASE Class = "abs" -> Abs [] Class = "oddalign" -> OddAlign [] Class = "control" -> Control [] Class = "far" -> Far [] Class = "values" -> Values
            [] Class = "aligns" -> Aligns [] OTHER -> Literals
 
 VARIABLE prog      \* sequence of alphabet indices
@@ -89,7 +102,7 @@ Next == Extend
 Spec == Init /\ [][Next]_prog
 
 DefCount(its, t) == Cardinality({j \in 1..Len(its) : its[j].k = "lab" /\ its[j].t = t})
-Refs(its) == {its[j].t : j \in {x \in 1..Len(its) : its[x].t # "" /\ its[x].k # "lab"}}
+Refs(its) == {its[j].t : j \in {x \in 1..Len(its) : its[x].t # "" /\ its[x].k \notin {"lab", "const", "brk", "jalk"}}}
 FirstDef(its, t) == CHOOSE j \in 1..Len(its) : its[j].k = "lab" /\ its[j].t = t
 WellFormed(its) ==
   /\ its # <<>>
@@ -98,6 +111,9 @@ WellFormed(its) ==
   \* label symmetry: if both are defined, L1 is the one defined first; L2 alone is never defined
   /\ DefCount(its, "L2") = 1 => (DefCount(its, "L1") = 1 /\ FirstDef(its, "L1") < FirstDef(its, "L2"))
   /\ Cardinality({j \in 1..Len(its) : its[j].k = "gap"}) <= MaxGapItems
+  /\ \A j \in 1..Len(its) : its[j].k \in {"brk", "jalk"} =>
+        (\E q \in 1..Len(its) : its[q].k = "const" /\ its[q].t = its[j].t)
+  /\ \A t \in {"K1", "K2"} : Cardinality({j \in 1..Len(its) : its[j].k = "const" /\ its[j].t = t}) <= 1
   \* a program that ends in a label-free tail after its last reference/label adds nothing: the last item matters
   /\ its[Len(its)].k \notin {"data"}
 
